@@ -223,6 +223,34 @@ def tree2parameter(
         raise exceptions.UnknownTreeTypeError(datatype=s.data, atom="Parameter")
 
 
+def is_conflicting_definition(atom: atoms.Atom, other: atoms.Atom) -> bool:
+    """Check if two atoms with the same name are conflicting definitions, i.e
+    they are of different kinds (state, parameter or assignment) or have
+    different values (different right hand sides in the case of assignments)
+
+    Parameters
+    ----------
+    atom : atoms.Atom
+        The atom
+    other : atoms.Atom
+        Another atom with the same name
+
+    Returns
+    -------
+    bool
+        True if the definitions are conflicting
+    """
+    if atom is other:
+        return False
+    if type(atom) is not type(other):
+        return True
+    if isinstance(atom, atoms.Assignment) and isinstance(other, atoms.Assignment):
+        if atom.value is None or other.value is None:
+            return atom.value is not other.value
+        return atom.value.tree != other.value.tree
+    return atom.value != other.value
+
+
 class TreeToODE(lark.Transformer):
     """Transform a lark tree to an ODE
 
@@ -310,6 +338,11 @@ class TreeToODE(lark.Transformer):
         # breakpoint()
 
         comments = []
+        # Atoms are collected in sets, and two assignments with the same name compare equal
+        # when they depend on the same variables. Detect conflicting definitions here,
+        # otherwise one of them would be silently dropped.
+        seen: dict[str, atoms.Atom] = {}
+        duplicates = set()
         for line in s:  # Each line in the block
             if isinstance(line, atoms.Comment):
                 comments.append(line)
@@ -320,8 +353,13 @@ class TreeToODE(lark.Transformer):
                 continue
 
             for atom in line:  # State, Parameters or Assignment
+                if is_conflicting_definition(atom, seen.setdefault(atom.name, atom)):
+                    duplicates.add(atom.name)
                 for component in atom.components:
                     components[component][mapping[type(atom)]].add(atom)
+
+        if duplicates:
+            raise exceptions.DuplicateSymbolError(duplicates)
 
         # Make sets frozen
         frozen_components: dict[str, dict[str, frozenset[atoms.Atom]]] = {}
